@@ -3,6 +3,7 @@ SPEC = {
     "components": [
         {"comp": "dedup", "module": "QV.Model.Dedup", "quick": 2000, "thorough": 24000},
         {"comp": "pkt_accept", "module": "QV.Model.PktAccept", "quick": 600, "thorough": 6000},
+        {"comp": "sim_c04", "module": "QV.Sys.MonC04", "quick": 60, "thorough": 1500},
     ],
     "assumptions": [
         "packet protection is an oracle in the key-selection model: a packet opens iff it was sealed under the key the table selects (stub keys in the hook); AEAD itself and header-protection masks are not modelled",
